@@ -24,7 +24,14 @@ func (c rCard) build() vcard.Card {
 	}
 	sort.Strings(keys)
 	for _, k := range keys {
+		if strings.HasSuffix(k, "\x01") {
+			continue
+		}
 		out[k] = []*vcard.Field{{Value: c[k]}}
+		if v2, ok := c[k+"\x01"]; ok {
+			// the property occurs a second time (key + \x01 holds the second value)
+			out[k] = append(out[k], &vcard.Field{Value: v2})
+		}
 	}
 	return out
 }
@@ -47,6 +54,15 @@ func c07Cards() []rCard {
 				c["EMAIL"] = em
 			}
 			out = append(out, c)
+		}
+	}
+	// a property that occurs twice (the usual case for EMAIL and TEL): a filter holds if SOME instance
+	// satisfies it (RFC 6352 10.5.1)
+	for _, a := range c07Values {
+		for _, b := range c07Values {
+			if a != b {
+				out = append(out, rCard{"VERSION": "4.0", "FN": "alice", "EMAIL": a, "EMAIL\x01": b})
+			}
 		}
 	}
 	return out
@@ -99,11 +115,19 @@ func refCardProp(pf carddav.PropFilter, c rCard) tri {
 	if len(pf.TextMatches) == 0 {
 		return triTrue
 	}
-	var l []tri
-	for _, tm := range pf.TextMatches {
-		l = append(l, refCardText(tm, v))
+	vals := []string{v}
+	if v2, ok := c[pf.Name+"\x01"]; ok {
+		vals = append(vals, v2)
 	}
-	return refCombine(pf.Test, l)
+	res := triFalse
+	for _, val := range vals {
+		var l []tri
+		for _, tm := range pf.TextMatches {
+			l = append(l, refCardText(tm, val))
+		}
+		res = triOr(res, refCombine(pf.Test, l))
+	}
+	return res
 }
 
 func refCardMatch(q *carddav.AddressBookQuery, c rCard) tri {
